@@ -194,7 +194,7 @@ class Overhang(EntityMethod):
             return []
         sm = self.the_match(ex, st, a)
         if sm is None:
-            return [("match-consulted", tm.FALSE)]
+            return [("match-consulted", None)]
         s, d = doubled_text(ex, pre, a["self"])
         s0, s1 = span_terms(st, sm, self.group)
         got = ex.models.text(st, result)
@@ -265,7 +265,7 @@ class TargetSequence(EntityMethod):
             return []
         sm = self.the_match(ex, st, a)
         if sm is None:
-            return [("match-consulted", tm.FALSE)]
+            return [("match-consulted", None)]
         rec = pre.get(a["self"], "record")
         s, d = doubled_text(ex, pre, a["self"])
         n = tm.slen(s)
@@ -347,7 +347,7 @@ class VectorPlaceholder(EntityMethod):
     def ensures(self, ex, pre, st, a, result):
         sm = self.the_match(ex, st, a)
         if sm is None:
-            return [("match-consulted", tm.FALSE)]
+            return [("match-consulted", None)]
         s, d = doubled_text(ex, pre, a["self"])
         c1, _ = span_terms(st, sm, 1)
         _, c2 = span_terms(st, sm, 2)
